@@ -99,6 +99,14 @@ func (s *expStepBStructure) verifyProofStructure(proof ExpStepBProof) bool {
 }
 
 func (s *expStepBStructure) commitmentsFromProof(g zkproof.Group, list []*big.Int, challenge *big.Int, bases zkproof.BaseLookup, proof ExpStepBProof) []*big.Int {
+	// The multiplication shown in this branch is about the value that the surrounding proof is
+	// committed to under mulname. The copy of that commitment sent along here only serves to carry
+	// responses for this branch's own challenge: the commitment itself is taken from the
+	// surrounding proof, so that a copy committing to another value opens nothing.
+	if outer := bases.Base(s.mulname); outer != nil {
+		proof.Mul.Commit = outer
+	}
+
 	// inner proof
 	proof.Bit.setName(strings.Join([]string{s.bitname, "hider"}, "_"))
 	proof.Mul.setName(s.mulname)
